@@ -461,6 +461,28 @@ macro_rules! expect {
     }};
 }
 
+/// For the types whose support is built in (sparse, run-length): supports_* are true and enable_* change nothing.
+pub fn enable_builtin_supports<'a, T>(bv: &mut T, order: u8, name: &str) -> Result<(), Fail>
+where
+    T: BitVec<'a> + Rank<'a> + Select<'a> + SelectZero<'a> + PredSucc<'a>,
+{
+    if !(bv.supports_rank() && bv.supports_select() && bv.supports_select_zero() && bv.supports_pred_succ()) {
+        return fail(name, "supports", "a support that is built in is reported as missing".to_string());
+    }
+    for k in 0..4u8 {
+        match (k + order) % 4 {
+            0 => bv.enable_rank(),
+            1 => bv.enable_select(),
+            2 => bv.enable_select_zero(),
+            _ => bv.enable_pred_succ(),
+        }
+    }
+    if !(bv.supports_rank() && bv.supports_select() && bv.supports_select_zero() && bv.supports_pred_succ()) {
+        return fail(name, "supports", "a support is reported as missing after enable_*".to_string());
+    }
+    Ok(())
+}
+
 /// Compare every operation of a bitvector with the model for the arguments in the plan.
 pub fn check_bitvec<'a, T, M>(bv: &'a T, model: &M, plan: &Plan, name: &str) -> Result<(), Fail>
 where
